@@ -81,6 +81,8 @@ def run_case(case):
 			out = None
 			if case.get('out') == 'given':
 				out = np.full(nr, np.nan, dtype=np.float32)
+			elif case.get('out') == 'strided':
+				out = np.full((nr, 3), np.nan, dtype=np.float32)[:, 1]          # a non-contiguous view: must be written IN PLACE
 			elif case.get('out') == 'badshape':
 				out = np.empty(nr + 1, dtype=np.float32)
 			elif case.get('out') == 'baddtype':
@@ -100,7 +102,14 @@ def run_case(case):
 		elif kind == 'matrix':
 			idx = case.get('ref_indices')
 			Q = _mk(case.get('queries', 'plain'), queries, ks, tmp)
-			out = np.full((nq, len(idx) if idx is not None else nr), np.nan, dtype=np.float32) if case.get('out') == 'given' else None
+			shape_ = (nq, len(idx) if idx is not None else nr)
+			out = np.full(shape_, np.nan, dtype=np.float32) if case.get('out') == 'given' else None
+			if case.get('out') == 'fortran':
+				out = np.full(shape_, np.nan, dtype=np.float32, order='F')
+			elif case.get('out') == 'transposed':
+				out = np.full(shape_[::-1], np.nan, dtype=np.float32).T
+			elif case.get('out') == 'strided':
+				out = np.full((shape_[0], shape_[1] * 2), np.nan, dtype=np.float32)[:, ::2]
 			res = jaccarddist_matrix(Q, R, ref_indices=idx, chunksize=case.get('chunksize'), out=out)
 			cols = idx if idx is not None else list(range(nr))
 			exp = [[D(q, refs[c]) for c in cols] for q in queries]
@@ -196,6 +205,11 @@ def cases(tier, seed):
 		if i % 3 == 0 and nr > 1:
 			yield {'kind': rnd.choice(['array', 'matrix']), 'nq': 1, 'nr': nr, 'refs': rnd.choice(['plain', 'list']), 'queries': 'plain', 'out': None, 'ref_indices': None,
 			       'chunksize': rnd.choice([None, 1, 2, 3]), 'threads': None, 'seed': rnd.randrange(10 ** 6), 'dtype': 'u4', 'mixed_ref_dtypes': True}
+		if i % 4 == 1 and nr:
+			# caller-supplied buffers that are not C-contiguous (Fortran order, a transposed view, every second column): written in place
+			yield {'kind': 'matrix', 'nq': rnd.choice([1, 2, 3]), 'nr': nr, 'refs': rnd.choice(['array', 'hdf5', 'list']), 'queries': 'plain', 'ref_indices': None,
+			       'chunksize': rnd.choice([None, 2]), 'out': rnd.choice(['fortran', 'transposed', 'strided']), 'threads': None, 'seed': rnd.randrange(10 ** 6)}
+			yield {'kind': 'array', 'nq': 1, 'nr': nr, 'refs': rnd.choice(['array', 'list']), 'out': 'strided', 'threads': None, 'seed': rnd.randrange(10 ** 6), 'dtype': 'u2'}
 		if i % 5 == 0:
 			yield {'kind': 'mutating', 'nq': 1, 'nr': rnd.choice([1, 3, 6]), 'steps': 5, 'seed': rnd.randrange(10 ** 6), 'dtype': rnd.choice(['u2', 'i4'])}
 		pidx = None
